@@ -34,6 +34,43 @@ func runC09(p *load.Program, r *oblig.Report) {
 	// including the one where the group is closed before Next picked the generation up: otherwise those goroutines
 	// outlive ConsumerGroup.Close and keep sending heartbeats (checked by C15.R1)
 	shareRules(r, "C09", "C09.R6 generation goroutines end with the group", func(sub *oblig.Report) { c15NextGeneration(p, sub) })
+	transportDeadline(p, r, "C09.R4 blocking waits on the caller's goroutine honour a context")
+	// Close flushes the open batch of every partition before it closes the queue (otherwise the batch is dropped and a
+	// synchronous WriteMessages waiting for it never returns)
+	c07PutDiscipline(p, r, "C09.R5 Close hands the open batch to the sender before the queue is closed")
+	c09ReaderRunDefers(p, r)
+}
+
+// c09ReaderRunDefers: Reader.Close waits for r.done; the group (LeaveGroup, coordinator connection) must be closed
+// before r.done is: deferred calls run last-in first-out, so `defer close(r.done)` is registered before
+// `defer cg.Close()`.
+func c09ReaderRunDefers(p *load.Program, r *oblig.Report) {
+	const rule = "C09.R6 the group is left and connections are closed"
+	fn := p.Func("", "(*Reader).run")
+	if fn == nil {
+		r.Lost(rule, "kafka.(*Reader).run")
+		return
+	}
+	var dDone, dClose ssa.Instruction
+	an.EachInstr(fn, func(ins ssa.Instruction) {
+		d, ok := ins.(*ssa.Defer)
+		if !ok || d.Parent() != fn {
+			return
+		}
+		if b, isB := d.Call.Value.(*ssa.Builtin); isB && b.Name() == "close" && strings.HasSuffix(clean(an.Shape(d.Call.Args[0])), ".done") {
+			dDone = d
+		}
+		if sc := d.Call.StaticCallee(); sc != nil && an.RefFuncName(sc) == "Close" && sc.Signature.Recv() != nil && an.NamedIs(sc.Signature.Recv().Type(), load.ModPath, "ConsumerGroup") {
+			dClose = d
+		}
+	})
+	ok := dDone != nil && dClose != nil && an.Dominates(dDone, dClose) && dDone != dClose
+	found := "order not established"
+	if dDone == nil || dClose == nil {
+		found = "defer close(r.done) / defer cg.Close() not found"
+	}
+	r.Check(ok, rule, "kafka.(*Reader).run signals its end (close(r.done)) only after the consumer group was closed", p.Pos(fn.Pos()),
+		"defer close(r.done) registered before defer cg.Close() (deferred calls run in reverse)", found)
 }
 
 func c09ClosedFlag(p *load.Program, r *oblig.Report) {
@@ -870,7 +907,7 @@ func c09LeaveOnClose(p *load.Program, r *oblig.Report) {
 					sel := false
 					for d := blk; d != nil; d = d.Idom() {
 						for _, i2 := range d.Instrs {
-							if _, isS := i2.(*ssa.Select); isS {
+							if selectAt(i2, func(*ssa.Select) bool { return true }) {
 								sel = true
 							}
 						}
@@ -948,4 +985,23 @@ func c09LeaveOnClose(p *load.Program, r *oblig.Report) {
 		}
 		r.RequireCount(rule+" (releaseConn call sites)", n, 2)
 	}
+}
+
+// selectAt: the instruction is a select accepted by pred, or a call of a helper that did not exist at review time
+// whose body contains one.
+func selectAt(ins ssa.Instruction, pred func(*ssa.Select) bool) bool {
+	if s, ok := ins.(*ssa.Select); ok {
+		return pred(s)
+	}
+	c, ok := ins.(*ssa.Call)
+	if !ok || c.Call.StaticCallee() == nil || !an.IsNew(c.Call.StaticCallee()) {
+		return false
+	}
+	found := false
+	an.EachInstr(c.Call.StaticCallee(), func(i ssa.Instruction) {
+		if s, ok := i.(*ssa.Select); ok && pred(s) {
+			found = true
+		}
+	})
+	return found
 }
